@@ -10,7 +10,8 @@ HARNESSES = ()
 THEOREMS = ["C05_exactly_once", "C05_copies_only_to_eavesdroppers", "C05_copies_once", "C05_no_third_party_intact", "C05_only_sends_forward", "C05_delivered", "C05_fifo",
             "C05_undeliverable_no_owner", "C05_refused_opens_nothing", "C05_undeliverable",
             "C05_close_keeps_earlier_steps", "C05_close_cleans_up",
-            "C05_fifo_held", "C05_fifo_held_inv", "C05_held_only_while_unowned"]
+            "C05_fifo_held", "C05_fifo_held_inv", "C05_held_only_while_unowned",
+            "C05_driver_call_copies_only_to_eavesdroppers", "C05_driver_call_copies_once", "C05_driver_step_output"]
 
 NONTRIVIAL = {"call-delivered", "call-delivered-noreply", "signal-delivered", "reply-delivered", "other-delivered",
               "no-owner-ServiceUnknown", "no-owner-NameHasNoOwner", "limit-refused", "duplicate-serial-refused", "fd-refused"}
@@ -148,7 +149,8 @@ def run(ctx):
         "evaluations": len(cases), "distinct_nontrivial": len(r["nontrivial"]),
         "rule": "histories of 5-18 events over up to 4 live raw clients under an allow-everything policy: all four message types with and without "
                 "NO_REPLY_EXPECTED / NO_AUTO_START, destinations = unique names (live, own, gone, never assigned) and three well-known names, "
-                "RequestName with every flag combination / ReleaseName / disconnect interleaved (ownership changes between sends), AddMatch by senders, "
+                "RequestName with every flag combination / ReleaseName / GetId / NameHasOwner / disconnect interleaved (ownership changes between sends; "
+                "the calls to the driver themselves are observed: reply to the caller, copies only to eavesdrop rule holders), AddMatch by senders, "
                 "recipients and bystanders (eavesdrop='true' or not; type / sender / destination keys, including rules matching the holder's own "
                 "incoming unicast traffic), unix fds to peers "
                 "with and without fd passing, max_replies_per_connection in {2,3,50}; ordered bursts from one sender to a name whose owner changes; "
